@@ -26,6 +26,7 @@ import copy
 import csv
 import errno
 import io
+import json
 
 from .. import corpus, opgen
 from ..engine import fork_call, ensure_repo_on_path, REPO
@@ -70,7 +71,9 @@ def gen_attrs(rng):
     return attrs
 
 
-def gen_nice(rng, attrs):
+def gen_nice(rng, attrs, earlier=None):
+    if earlier and rng.random() < 0.35:
+        return copy.deepcopy(rng.choice(earlier))
     r = rng.random()
     if r < 0.4:
         return None
@@ -107,6 +110,7 @@ def gen_plan(rng):
     kinds = [k for k in ("csv", "tw", "records") if rng.random() < 0.75] \
         or ["csv", "tw"]
     ops = []
+    nices = []     # list/dict header requests used so far (may be re-used)
     n_ops = rng.randint(1, 8)
     next_w = 0
     open_w = {}     # writer id -> path (generator-side bookkeeping only)
@@ -122,8 +126,10 @@ def gen_plan(rng):
                 ops.append({"op": "csv", "src": rng.randrange(n_src),
                             "attrs": attrs, "path": rng.choice(free),
                             "mode": rng.choice("wa"),
-                            "nice": gen_nice(rng, attrs),
+                            "nice": gen_nice(rng, attrs, nices),
                             "via": rng.choice(("desc", "tractlist"))})
+                if isinstance(ops[-1]["nice"], (list, dict)):
+                    nices.append(ops[-1]["nice"])
                 continue
         if k == "tw":
             r = rng.random()
@@ -135,11 +141,11 @@ def gen_plan(rng):
                     None))
                 ops.append({"op": "tw_write", "w": w, "src": srcsel,
                             "plus": "auto"})
-            elif open_w and r < 0.75:
+            elif open_w and r < 0.78:
                 w = rng.choice(sorted(open_w))
                 ops.append({"op": "tw_close", "w": w})
                 closed_w.append((w, open_w.pop(w)))
-            elif closed_w and r < 0.85:
+            elif closed_w and r < 0.92:
                 w, p = closed_w[-1]
                 if p not in open_w.values():
                     closed_w.pop()
@@ -155,10 +161,12 @@ def gen_plan(rng):
                     ops.append({"op": "tw_new", "w": next_w, "attrs": attrs,
                                 "path": rng.choice(free),
                                 "mode": rng.choice("wa"),
-                                "nice": gen_nice(rng, attrs),
+                                "nice": gen_nice(rng, attrs, nices),
                                 "plus": plus,
                                 "uid": rng.choice((None, None, 0, 27))})
                     open_w[next_w] = ops[-1]["path"]
+                    if isinstance(ops[-1]["nice"], (list, dict)):
+                        nices.append(ops[-1]["nice"])
                     next_w += 1
                 elif not open_w:
                     kinds = [x for x in kinds if x != "tw"] or ["csv"]
@@ -309,12 +317,25 @@ class Runner:
         self.TW = TractWriter
         self.pytrs, self.plan, self.srcs, self.fs = pytrs, plan, srcs, fs
         self.writers = {}
+        self.nice_objs = {}    # a caller re-using one header list object
         self.model = {}        # path -> list of row specs
         self.dirty = set()     # paths with an open writer (content not final)
         self.stats = {}
 
     def bump(self, k, v=1):
         self.stats[k] = self.stats.get(k, 0) + v
+
+    def nice(self, value):
+        """Equal header lists/dicts in the plan are ONE object, as when a
+        caller keeps its header list in a variable and passes it again."""
+        if not isinstance(value, (list, dict)):
+            return value
+        key = json.dumps(value, sort_keys=True)
+        if key not in self.nice_objs:
+            self.nice_objs[key] = copy.deepcopy(value)
+        else:
+            self.bump("nice_headers_object_reused")
+        return self.nice_objs[key]
 
     def src_tracts(self, sel):
         if sel is None:
@@ -389,7 +410,8 @@ class Runner:
             self.pending = (path, base + new_rows)
             target = src if op["via"] == "desc" or not isinstance(
                 src, pytrs.PLSSDesc) else pytrs.TractList(src)
-            target.tracts_to_csv(op["attrs"], path, op["mode"], op["nice"])
+            target.tracts_to_csv(op["attrs"], path, op["mode"],
+                                 self.nice(op["nice"]))
             self.model[path] = base + new_rows
             return {"ok": None, "closed": path}
         if kind == "tw_new":
@@ -413,7 +435,8 @@ class Runner:
             try:
                 w["obj"] = self.TW(op["attrs"], path, op["mode"],
                                    plus_cols=op["plus"],
-                                   nice_headers=op["nice"], uid=op["uid"])
+                                   nice_headers=self.nice(op["nice"]),
+                                   uid=op["uid"])
             except BaseException:
                 w["open"] = False
                 raise
